@@ -366,6 +366,10 @@ fn stmt(rng: &mut Rng, a: &mut Asm, cfg: &StructCfg, depth: u32, budget: &mut i3
         28
     } else if rng.chance(1, 14) {
         29
+    } else if rng.chance(1, 14) {
+        30
+    } else if rng.chance(1, 16) {
+        31
     } else {
         choice
     };
@@ -893,6 +897,134 @@ fn stmt(rng: &mut Rng, a: &mut Asm, cfg: &StructCfg, depth: u32, budget: &mut i3
             if rng.coin() {
                 a.output(x);
             }
+        }
+        30 => {
+            // inside an `if` or a counted loop: make a copy of y (y kept), print the copy, clear
+            // it; y itself has an operation pending from before the block or changes per round
+            let (y, c) = two(rng);
+            let p = k + cfg.scratch + 1;
+            let (t1, t2) = (p, p + 1);
+            match rng.below(3) {
+                0 => a.input(y),
+                1 => a.add(y, rng.range(1, 5)),
+                _ => {
+                    a.input(y);
+                    a.add(y, rng.range(1, 5));
+                }
+            }
+            let as_if = rng.coin();
+            if as_if {
+                if rng.coin() {
+                    a.input(c);
+                } else {
+                    a.add(c, 1);
+                }
+            } else {
+                a.add(c, rng.range(1, 4));
+            }
+            let per_round = *rng.pick(&[0i64, 0, 1, 2, -1]);
+            let print_original_too = rng.chance(1, 4);
+            let clear_copy = rng.chance(3, 4);
+            a.while_(c, |a| {
+                a.clear(t1);
+                a.clear(t2);
+                a.while_(y, |a| {
+                    a.add(t1, 1);
+                    a.add(t2, 1);
+                    a.add(y, -1);
+                });
+                a.while_(t2, |a| {
+                    a.add(y, 1);
+                    a.add(t2, -1);
+                });
+                a.output(t1);
+                if clear_copy {
+                    a.clear(t1);
+                }
+                if print_original_too {
+                    a.output(y);
+                }
+                a.add(y, per_round);
+                if as_if {
+                    a.clear(c);
+                } else {
+                    a.add(c, -1);
+                }
+            });
+            a.output(y);
+        }
+        31 => {
+            // a computed value, then a loop known to run at least once, then an `if` whose body
+            // holds a loop that keeps reading the early value while it computes something else
+            let (x, y) = two(rng);
+            let p = k + cfg.scratch + 1;
+            let (once, c, n, m, z, t) = (p, p + 1, p + 2, p + 3, p + 4, p + 5);
+            for cell in [once, c, n, m, z, t] {
+                a.clear(cell);
+            }
+            a.input(x);
+            a.add(x, rng.range(1, 3));
+            if rng.coin() {
+                a.output(x);
+            }
+            // the at-least-once loop
+            a.add(once, 1);
+            match rng.below(3) {
+                0 => a.while_(once, |a| {
+                    a.input(once);
+                    a.output(once);
+                }),
+                1 => {
+                    a.add(once, rng.range(1, 3));
+                    a.while_(once, |a| {
+                        a.output(once);
+                        a.add(once, -1);
+                    })
+                }
+                _ => a.while_(once, |a| {
+                    a.add(z, 2);
+                    a.clear(once);
+                }),
+            }
+            a.input(c);
+            let counted = rng.coin();
+            a.while_(c, |a| {
+                if counted {
+                    a.add(n, rng.range(2, 4));
+                } else {
+                    a.input(n);
+                }
+                a.while_(n, |a| {
+                    // y += x (x kept), print
+                    a.while_(x, |a| {
+                        a.add(y, 1);
+                        a.add(t, 1);
+                        a.add(x, -1);
+                    });
+                    a.while_(t, |a| {
+                        a.add(x, 1);
+                        a.add(t, -1);
+                    });
+                    a.output(y);
+                    // something else that needs a temporary of its own
+                    a.input(m);
+                    a.while_(m, |a| {
+                        a.add(z, 2);
+                        a.add(m, -1);
+                    });
+                    a.output(z);
+                    if rng.coin() {
+                        a.clear(z);
+                    }
+                    if counted {
+                        a.add(n, -1);
+                    } else {
+                        a.input(n);
+                    }
+                });
+                a.clear(c);
+            });
+            a.output(x);
         }
         23 => {
             // a real loop whose body ends in an `if` that adjusts the loop's own condition cell
@@ -1957,4 +2089,177 @@ pub fn program(rng: &mut Rng, fam: Family, width: u32, corpus: &[String], big: b
     } else {
         p
     }
+}
+
+// ---------------------------------------------------------------------------------
+// Growth pairs (C13): the same construction at size parameter k and 2k. The source is
+// linear in k, so compile cost must not grow by more than a polynomial factor.
+
+fn growth_program(shape: u32, k: usize, consts: &[i64], flags: &[bool]) -> String {
+    let mut a = Asm::new();
+    // cells: 0 acc, 1 x, 2 y, 3 t, 4 t2, 5.. extra
+    let (acc, x, y, t, t2) = (0i64, 1i64, 2i64, 3i64, 4i64);
+    // dst = dst * src (src kept), using t, t2
+    let mul = |a: &mut Asm, dst: i64, src: i64| {
+        a.while_(dst, |a| {
+            a.while_(src, |a| {
+                a.add(t, 1);
+                a.add(t2, 1);
+                a.add(src, -1);
+            });
+            a.while_(t2, |a| {
+                a.add(src, 1);
+                a.add(t2, -1);
+            });
+            a.add(dst, -1);
+        });
+        a.while_(t, |a| {
+            a.add(dst, 1);
+            a.add(t, -1);
+        });
+    };
+    match shape {
+        0 => {
+            // product of sums: acc *= (x_i + c_i)
+            a.add(acc, 1);
+            for i in 0..k {
+                a.clear(x);
+                a.input(x);
+                a.add(x, consts[i]);
+                mul(&mut a, acc, x);
+            }
+        }
+        1 => {
+            // Horner: acc = acc * x + c_i
+            a.input(x);
+            a.add(acc, 1);
+            for i in 0..k {
+                mul(&mut a, acc, x);
+                a.add(acc, consts[i]);
+            }
+        }
+        2 => {
+            // sum of products of fresh inputs
+            for i in 0..k {
+                a.clear(x);
+                a.clear(y);
+                a.input(x);
+                a.input(y);
+                a.add(y, consts[i]);
+                mul(&mut a, x, y);
+                a.while_(x, |a| {
+                    a.add(acc, 1);
+                    a.add(x, -1);
+                });
+            }
+        }
+        3 => {
+            // squares with additions: acc = acc * acc + c_i
+            a.input(acc);
+            for i in 0..k {
+                // y = acc (acc kept)
+                a.clear(y);
+                a.while_(acc, |a| {
+                    a.add(y, 1);
+                    a.add(t, 1);
+                    a.add(acc, -1);
+                });
+                a.while_(t, |a| {
+                    a.add(acc, 1);
+                    a.add(t, -1);
+                });
+                mul(&mut a, acc, y);
+                a.add(acc, consts[i]);
+            }
+        }
+        4 => {
+            // Fibonacci-like fan-out over a row of cells: c[i+2] = c[i+1] + c[i] (both kept)
+            let base = 5i64;
+            a.input(base);
+            a.input(base + 1);
+            for i in 0..k as i64 {
+                for src in [base + i, base + i + 1] {
+                    a.while_(src, |a| {
+                        a.add(base + i + 2, 1);
+                        a.add(t, 1);
+                        a.add(src, -1);
+                    });
+                    a.while_(t, |a| {
+                        a.add(src, 1);
+                        a.add(t, -1);
+                    });
+                }
+            }
+            a.while_(base + k as i64 + 1, |a| {
+                a.add(acc, 1);
+                a.add(base + k as i64 + 1, -1);
+            });
+        }
+        5 => {
+            // nested ifs, each multiplying by a sum
+            a.add(acc, 1);
+            fn nest(a: &mut Asm, i: usize, k: usize, consts: &[i64]) {
+                if i == k {
+                    return;
+                }
+                a.clear(1);
+                a.input(1);
+                a.while_(1, |a| {
+                    a.add(0, consts[i]);
+                    nest(a, i + 1, k, consts);
+                    a.clear(1);
+                });
+            }
+            nest(&mut a, 0, k, consts);
+        }
+        6 => {
+            // acc *= (x_i + y_i) with two fresh inputs per factor
+            a.add(acc, 1);
+            for i in 0..k {
+                a.clear(x);
+                a.clear(y);
+                a.input(x);
+                a.input(y);
+                a.while_(y, |a| {
+                    a.add(x, 1);
+                    a.add(y, -1);
+                });
+                if flags[i] {
+                    a.add(x, consts[i]);
+                }
+                mul(&mut a, acc, x);
+            }
+        }
+        _ => {
+            // a mix: alternate multiplication by an input sum and addition of a product
+            a.add(acc, 1);
+            for i in 0..k {
+                a.clear(x);
+                a.input(x);
+                a.add(x, consts[i]);
+                if flags[i] {
+                    mul(&mut a, acc, x);
+                } else {
+                    a.clear(y);
+                    a.input(y);
+                    mul(&mut a, y, x);
+                    a.while_(y, |a| {
+                        a.add(acc, 1);
+                        a.add(y, -1);
+                    });
+                }
+            }
+        }
+    }
+    a.output(acc);
+    a.out
+}
+
+/// (construction at k, construction at 2k, k)
+pub fn growth_pair(rng: &mut Rng) -> (String, String, usize) {
+    let shape = rng.below(8) as u32;
+    let k = rng.urange(4, 12);
+    let consts: Vec<i64> = (0..2 * k).map(|_| rng.range(1, 3)).collect();
+    let flags: Vec<bool> = (0..2 * k).map(|_| rng.coin()).collect();
+    (growth_program(shape, k, &consts, &flags), growth_program(shape, 2 * k, &consts, &flags), k)
 }
